@@ -610,6 +610,7 @@ static size_t copy_chars (UCHAR* from, UCHAR* to, size_t count, interactive_t* i
 
   size_t i;
   UCHAR *start = to;
+  object_t *ob = ip->ob;
 
   /* a simple state-machine that processes TELNET commands */
   for (i = 0; i < count; i++)
@@ -672,6 +673,8 @@ static size_t copy_chars (UCHAR* from, UCHAR* to, size_t count, interactive_t* i
                       break;
                     copy_and_push_string ((char*)ip->sb_buf + 2);
                     apply (APPLY_TERMINAL_TYPE, ip->ob, 1, ORIGIN_DRIVER);
+                    if (!IP_VALID (ip, ob))
+                      return 0; /* the callback destructed the user: ip is gone */
                     break;
                   }
                 case TELOPT_NAWS:
@@ -683,6 +686,8 @@ static size_t copy_chars (UCHAR* from, UCHAR* to, size_t count, interactive_t* i
                     push_number (w);
                     push_number (h);
                     apply (APPLY_WINDOW_SIZE, ip->ob, 2, ORIGIN_DRIVER);
+                    if (!IP_VALID (ip, ob))
+                      return 0;
                     break;
                   }
                 case TELOPT_LINEMODE:
@@ -777,6 +782,8 @@ static size_t copy_chars (UCHAR* from, UCHAR* to, size_t count, interactive_t* i
                      */
                     copy_and_push_string ((char*)ip->sb_buf);
                     apply (APPLY_TELNET_SUBOPTION, ip->ob, 1, ORIGIN_DRIVER);
+                    if (!IP_VALID (ip, ob))
+                      return 0;
                     break;
                   }
                 }
@@ -1166,9 +1173,11 @@ void process_io () {
           
           if (evt->event_type & EVENT_READ)
             {
+              object_t *ob = ip->ob;
+
               get_user_data (ip, evt);
-              /* ip->ob may be invalid after get_user_data if object was destructed */
-              if (!ip->ob || (ip->ob->flags & O_DESTRUCTED) || ip->ob->interactive != ip)
+              /* ip is freed if the object was destructed or the connection removed */
+              if (!IP_VALID (ip, ob))
                 {
                   continue;
                 }
@@ -1842,6 +1851,7 @@ static void get_user_data (interactive_t* ip, io_event_t* evt) {
   char buf[MAX_TEXT];
   size_t text_space, num_bytes;
   int err = 0;
+  object_t *ob = ip->ob;
 
   /* Console users should never reach this function - they use completion queue.
    * This assertion validates the architecture invariant. */
@@ -1976,7 +1986,10 @@ static void get_user_data (interactive_t* ip, io_event_t* evt) {
            * process suboption negotiations (TTYPE, NAWS, LINEMODE), etc.
            * copy_chars() implements the TELNET state machine.
            */
-          ip->text_end += copy_chars ((UCHAR *) buf, (UCHAR *) ip->text + ip->text_end, num_bytes, ip);
+          num_bytes = copy_chars ((UCHAR *) buf, (UCHAR *) ip->text + ip->text_end, num_bytes, ip);
+          if (!IP_VALID (ip, ob))
+            return; /* a telnet callback destructed the user */
+          ip->text_end += num_bytes;
           opt_trace (TT_COMM|3, "Command buffer contains %d characters\n", ip->text_end - ip->text_start);
           /*
            * now, ip->text_end is just after the last character read. If the last character
@@ -2018,6 +2031,8 @@ static void get_user_data (interactive_t* ip, io_event_t* evt) {
                   {
                     push_malloced_string (str);
                     apply (APPLY_PROCESS_INPUT, ip->ob, 1, ORIGIN_DRIVER);
+                    if (!IP_VALID (ip, ob))
+                      return;
                   }
                 if (ip->text_start == ip->text_end)
                   {
